@@ -18,6 +18,9 @@ chi = probes.chi
 import myokit  # noqa: E402
 
 
+MODES = ('plain', 'sens', 'reselect', 'reduced_fix', 'sens_off')
+
+
 def features(rec):
     f = []
     if rec['evperiod'] > 0 and rec['evmult'] == 0:
@@ -97,14 +100,33 @@ def replay_case(arg):
             t2 = np.arange(1, 2 * rec['horizon'] + 1)
             if len(t2) == 0:
                 continue
+            # the doses arrive whatever else the model is asked to compute (spec: Modes): plain simulation,
+            # sensitivities on, sensitivities re-selected for a subset, a reduced wrapper fixing a parameter while
+            # sensitivities are on, sensitivities switched off again
+            mode = MODES[int(rng.integers(len(MODES)))]
+            cnt['mode_' + mode] = cnt.get('mode_' + mode, 0) + 1
+            sim_model = model
+            if mode in ('sens', 'reselect', 'sens_off'):
+                model.enable_sensitivities(True)
+            if mode == 'reselect':
+                model.enable_sensitivities(True, [names[-1]])
+            if mode == 'sens_off':
+                model.enable_sensitivities(False)
+            if mode == 'reduced_fix':
+                sim_model = chi.ReducedMechanisticModel(model)
+                sim_model.enable_sensitivities(True)
+                sim_model.fix_parameters({names[-1]: vals[-1]})
+                vals = vals[:-1]
             with warnings.catch_warnings():
                 warnings.simplefilter('error', RuntimeWarning)
-                sim = model.simulate(vals, t2 / 2.0)
+                sim = sim_model.simulate(vals, t2 / 2.0)
+            if sim_model.has_sensitivities():
+                sim = sim[0]
             cnt['evaluations'] = cnt.get('evaluations', 0) + 1
             total = sim.sum(axis=0) - x0['global.' + target]
             exp = np.array(rec['cum'], dtype=float) / rec['cumden']
             if total.shape != exp.shape or not np.allclose(total, exp, rtol=1e-7, atol=1e-7):
-                fail('DeliversDoses', 'cumulative_input', dict(direct=direct, target=target, use_protocol=use_protocol,
+                fail('DeliversDoses', 'cumulative_input', dict(direct=direct, target=target, use_protocol=use_protocol, mode=mode,
                                                               got=total.tolist(), expected=exp.tolist()))
             if not direct and (np.any(sim[1] < -1e-9) or np.any(np.diff(sim[0]) < -1e-9)):
                 fail('DeliversDoses', 'depot_route', dict(got=sim.tolist()))
